@@ -326,7 +326,7 @@ func init() {
 		Level:   "other",
 		Explanation: "Kernel obligations of fidelity, decided on the real code. (1) The real RecvManifestMultiStream runs from its entry against a scripted healthy sender that delivers a small tree - a directory, a zero-length file in it and one data file of symbolic content around the chunk boundary - with the frames in either order; the receiver's goroutines (control reader, data reader, main loop) are symbolic threads and every schedule in which they can block and wake is explored; asserted: success, every file confirmed once, the data file byte-for-byte the source, the empty file and the directory present. (2) Frame-level fidelity of the receiver (offset, length, bytes, CRC before write, accounting) is the C05.reader closure unit; chunk geometry is C19; sender dispatch is C17. (3) makeVirtualStreamID is injective for connection index < 256 and stream id < 2^56.",
 		Rule:        "assertion sites: vAssert lines of H_C01_*",
-		Assumptions: []string{"in-memory scripted connection (no QUIC), one data stream; multi-connection runs only through the stream-id function", "sender side of the byte path (worker read + frame emission) is not executed here; its dispatch logic is C17 and its geometry C19", "composition of these kernels into 'identical tree for every configuration' is a paper step"},
+		Assumptions: []string{"in-memory scripted connection (no QUIC), one data stream; multi-connection runs only through the stream-id function", "sender byte path: one file, one worker, the read pool replaced by the ReadAt it performs; timers may fire once per path", "composition of these kernels into 'identical tree for every configuration' is a paper step"},
 		Bounds:      func(tier string) string { return "data file of 5 bytes (quick) / 1,4,5,8 bytes (thorough), chunk size 4, both frame orders, resume on/off; thorough adds both root-directory modes and both record orders" },
 		Jobs: func(tier string, prog *ssa.Program) []*Job {
 			tr := hj("C01.tree", "H_C01_tree", "healthy scripted sender, every receiver schedule")
@@ -337,7 +337,11 @@ func init() {
 			tr.TimersNeverFire = true
 			tr.Workers = 16
 			tr.MaxPaths = 5000000
-			js := []*Job{tr, hj("C01.streamid", "H_C01_streamid", "virtual stream ids are injective")}
+			sb := hj("C01.sender-bytes", "H_C02_sender", "real sender: what goes onto the data stream is the file, chunk by chunk, once")
+			sb.Threads, sb.Workers, sb.MaxPaths = true, 16, 5000000
+			sb.TimerBudget = 1
+			sb.Stubs = map[string]interceptFn{repoModule + "/internal/transfer.readAtWithPool": stubReadAtDirect}
+			js := []*Job{tr, hj("C01.streamid", "H_C01_streamid", "virtual stream ids are injective"), sb}
 			if tier == "thorough" {
 				pr := hj("C01.tree-preempt", "H_C01_tree", "healthy scripted sender, schedules with one preemption of a goroutine at a select")
 				pr.Threads, pr.TimersNeverFire, pr.Workers, pr.MaxPaths = true, true, 16, 5000000
@@ -354,7 +358,7 @@ func init() {
 		Level:   "other",
 		Explanation: "Safety part of 'no false success' on the receiver: the real RecvManifestMultiStream runs from its entry against a scripted sender whose every chunk frame is good, carries a wrong CRC field, a payload corrupted in flight, is missing, or is cut short, and whose control stream ends after FileBegin, after FileEnd or after End. Goroutines are symbolic threads; every order in which the main select can observe End, control EOF, data errors and completion signals is explored. Asserted: a nil error implies the output file exists with the announced size, equals the source byte for byte, and no file was declared failed; and no schedule leaves every goroutine blocked (a hang after the input has ended). CRC-before-write and no-mark-on-failure at frame level are the C05.reader obligations. Natively the harness repeats the scenario up to 400 times because Go chooses among ready select cases at random.",
 		Rule:        "assertion sites: vAssert lines of H_C02_receiver plus the no-deadlock obligation per path",
-		Assumptions: []string{"A-CRC3: the in-flight corruption is one CRC-32C detects (always true for payloads up to 4 bytes, 2^-32 otherwise)", "timers never fire; streams report EOF at their end (no stalling peer); sender-side false success (cancelled context) and wall-clock bounds are outside this check", "one file of 2 or 5 bytes (quick) / 1,4,5,8 (thorough), chunk size 4, one data stream"},
+		Assumptions: []string{"A-CRC3: the in-flight corruption is one CRC-32C detects (always true for payloads up to 4 bytes, 2^-32 otherwise)", "receiver: timers never fire; sender: a timer may fire once per path, the read pool is replaced by the ReadAt it performs, resume off; streams report EOF at their end (no stalling peer); wall-clock bounds are outside this check", "one file of 2 or 5 bytes (quick) / 1,4,5,8 (thorough), chunk size 4, one data stream"},
 		Bounds:      func(tier string) string { return "1-2 chunks, 5 fault kinds per chunk, 3 control endings, resume on/off, all thread schedules at blocking points" },
 		Jobs: func(tier string, prog *ssa.Program) []*Job {
 			r := hj("C02.receiver", "H_C02_receiver", "faulty scripted sender, every receiver schedule")
@@ -365,7 +369,14 @@ func init() {
 			r.TimersNeverFire = true
 			r.Workers = 16
 			r.MaxPaths = 5000000
-			js := []*Job{r}
+			sn := hj("C02.sender", "H_C02_sender", "real sender against scripted acknowledgements (ok / failed / none), caller may cancel")
+			if tier == "thorough" {
+				sn = hj("C02.sender", "H_C02_sender_deep", "real sender against scripted acknowledgements (sizes 0,1,4,5,8)")
+			}
+			sn.Threads, sn.Workers, sn.MaxPaths = true, 16, 5000000
+			sn.TimerBudget = 1
+			sn.Stubs = map[string]interceptFn{repoModule + "/internal/transfer.readAtWithPool": stubReadAtDirect}
+			js := []*Job{r, sn}
 			if tier == "thorough" {
 				pr := hj("C02.receiver-preempt", "H_C02_receiver", "faulty scripted sender, schedules with one preemption of a goroutine at a select")
 				pr.Threads, pr.TimersNeverFire, pr.Workers, pr.MaxPaths = true, true, 16, 5000000
